@@ -497,7 +497,7 @@ fn eval_predicate(
 ) -> error::Result<bool> {
     let value = eval_expr(predicate, node, context)?;
     match value {
-        model::Value::Number(v) => Ok(v as usize == context.get_position()),
+        model::Value::Number(v) => Ok(v == context.get_position() as f64),
         _ => Ok(bool::try_from(&value)?),
     }
 }
